@@ -305,9 +305,9 @@ func (g *G) LeafOf(name string, k Kind) *B {
 	case LErrno:
 		b.Err, b.Text = syscall.ENOENT, "no such file or directory"
 	case LUnimpl:
-		m := g.StrS(name + ".m")
+		m := g.StrU(name + ".m") // "for now, msg is non-reportable"
 		b.Err, b.Text = errors.UnimplementedError(errors.IssueLink{IssueURL: "http://u/1"}, m), m
-		b.Safe = []string{m}
+		b.Unsafe = []string{m}
 	case LAssert:
 		m := g.StrU(name + ".m")
 		b.Err, b.Text = errors.AssertionFailedf("%s", m), m
@@ -428,7 +428,9 @@ func (g *G) WrapOf(name string, c *B, k Kind) *B {
 		b.Err = errors.WithTelemetry(e, m)
 		b.Safe = append(append([]string{}, c.Safe...), m)
 	case WDomain:
-		m := g.StrS(name + ".m")
+		// domain names are rendered with %q by the library; a concrete name is used
+		g.ctr++
+		m := fmt.Sprintf("dom%d", g.ctr)
 		b.Err = errors.WithDomain(e, errors.NamedDomain(m))
 		b.Safe = append(append([]string{}, c.Safe...), m)
 		b.Domain = "error domain: \"" + m + "\""
@@ -504,7 +506,8 @@ func (g *G) WrapOf(name string, c *B, k Kind) *B {
 		b.Unsafe = append(append([]string{}, c.Unsafe...), m)
 	case WHandledDomain:
 		// barrier: becomes a leaf
-		m := g.StrS(name + ".m")
+		g.ctr++
+		m := fmt.Sprintf("dom%d", g.ctr)
 		b.Err = errors.HandledInDomain(e, errors.NamedDomain(m))
 		b.Kinds = []Kind{k}
 		b.Leaf = nil
